@@ -455,8 +455,8 @@ pub fn run(ctx: &Ctx) {
     let enc = |c: &Case| serde_json::to_value(c).unwrap_or(Value::Null);
     ctx.enumerate("table", &items, check, enc);
     let cases = match ctx.tier {
-        Tier::Quick => 12000,
-        Tier::Thorough => 300000,
+        Tier::Quick => 40000,
+        Tier::Thorough => 1000000,
     };
     let n = table.len();
     let tbl = table.clone();
